@@ -16,19 +16,23 @@
 (*     for-each-pair, apply; 16.1/14: sort),                               *)
 (* (4) EvalI: an IMPLEMENTATION-SHAPED evaluator that models how           *)
 (*     /repo/elementpath runs the same syntax (used by Closures.tla        *)
-(*     AsImplemented; never an oracle for a verdict):                      *)
+(*     AsImplemented; never an oracle for a verdict), kept in sync with    *)
+(*     the code (now /repo 267df37):                                       *)
 (*       - one mutable variables dict D per let/for scope, shared by every *)
 (*         XPathContext copy made inside the scope (copy(context) is       *)
 (*         shallow); an inline function call works on its own copy of the  *)
-(*         caller's dict (/repo commit a3d4dd5; before it, the call wrote  *)
-(*         captured variables and parameters INTO THE CALLER'S dict);      *)
-(*       - _InlineFunction.evaluate stores D.copy() ON THE SYNTAX TOKEN    *)
-(*         and returns the token: T[site];                                 *)
-(*       - partial application copies the token shallowly: the copy shares *)
-(*         the argument-token list `_items` with the original: SL[owner];  *)
-(*         fixed arguments stay unevaluated tokens and are evaluated at    *)
-(*         call time in the caller's dict;                                 *)
-(*       - XPathFunction.__call__ clears and refills the token's `_items`. *)
+(*         caller's dict (a3d4dd5);                                        *)
+(*       - _InlineFunction.evaluate returns a COPY of the token that owns  *)
+(*         D.copy() (e070bf1; before it the variables were stored on the   *)
+(*         syntax token, shared by all function items of the expression);  *)
+(*       - a dynamic partial application $f(a, ?) is a copy with its own   *)
+(*         argument list, fixed arguments evaluated at once (e1d9b01;      *)
+(*         before it the list was shared with the base and the arguments   *)
+(*         were evaluated at call time);                                   *)
+(*       - REMAINING DEVIATION: the static form name(a, ?) turns the       *)
+(*         syntax token itself into a partial function at parse time; its  *)
+(*         fixed arguments stay unevaluated tokens, evaluated at CALL time *)
+(*         in the caller's dict.                                           *)
 (*                                                                         *)
 (* Values are sequences of items; items are tagged records with            *)
 (* type-specific field names so TLC never compares incomparable values:    *)
@@ -195,29 +199,38 @@ Eval(e, env) ==
     [] e.k = "arr" -> <<[arr |-> EvalArgs(e.es, env)]>>
 
 ---------------------------------------------------------------------------
-(* IMPLEMENTATION-SHAPED EVALUATOR (see header).  Machine M = [d, t, sl, nid]:                 *)
-(*   d   variables dict of the innermost let/for scope (mutated by function calls)             *)
-(*   t   site -> variables stored on the inline-function syntax token by its last evaluation   *)
-(*   sl  owner -> the `_items` list shared by a function token and all its shallow copies:     *)
-(*       entries HoleM | [tok |-> expr] (unevaluated argument token) | [val |-> v]             *)
-(*   nid counter of function-token instances created by name#arity references                 *)
-(* Function items: [fn |-> "tok", site, params, body]        the inline-function token itself  *)
-(*                 [fn |-> "ptok", site, params, body, vars] shallow copy made by partial app. *)
-(*                 [fn |-> "inst", name, arity, own]         instance made by name#arity       *)
-(*                 [fn |-> "pinst", name, own]               its shallow partial copy          *)
-(*                 [fn |-> "pstat", name, own]               static call with '?' (the token)  *)
+(* IMPLEMENTATION-SHAPED EVALUATOR (see header), in sync with /repo 267df37.                    *)
+(* Machine M = [d]: the variables dict of the innermost let/for scope (a function call works   *)
+(* on its own copy, a3d4dd5).  Function items:                                                 *)
+(*   [fn |-> "tok", site, params, body, vars]   copy of the inline-function token that OWNS    *)
+(*                                              the variables captured at its evaluation (e070bf1) *)
+(*   [fn |-> "ptok", .., vars, slots]           partial application of it: own argument list,  *)
+(*                                              fixed arguments evaluated at application time  *)
+(*                                              (e1d9b01); slots entries HoleM | [val |-> v]   *)
+(*   [fn |-> "inst", name, arity]               instance made by name#arity                    *)
+(*   [fn |-> "pinst", name, slots]              its partial application (own, evaluated list)  *)
+(*   [fn |-> "pstat", name, slots]              STATIC call with '?' (concat($i, ?)): the      *)
+(*                                              syntax token turned ITSELF into a partial      *)
+(*                                              function at parse time; evaluate() returns the *)
+(*                                              token; slots entries HoleM | [tok |-> expr]    *)
+(*                                              stay UNEVALUATED and are evaluated at CALL     *)
+(*                                              time in the caller's dict  <- remaining defect *)
 (* An unknown variable poisons the value: <<[err |-> "XPST0008"]>> (the real code raises).     *)
+(* History: until e070bf1 / e1d9b01 the captured variables lived on the syntax token (one      *)
+(* object for every function item of a function expression) and partial applications shared    *)
+(* the argument list of their base; TLC refuted that model (AsImplementedAgrees) with          *)
+(* let $fs := (for $i in (10,20) return function($x){$x+$i}) return $fs[1](2)  = 22.           *)
 Poison(code) == <<[err |-> code]>>
 IsPoison(v) == \E j \in 1..Len(v) : Has(v[j], "err")
 AnyPoison(vs) == \E j \in 1..Len(vs) : IsPoison(vs[j])
 FirstPoison(vs) == vs[CHOOSE j \in 1..Len(vs) : IsPoison(vs[j]) /\ \A q \in 1..(j - 1) : ~IsPoison(vs[q])]
 PoisonOf(v) == <<v[CHOOSE j \in 1..Len(v) : Has(v[j], "err") /\ \A q \in 1..(j - 1) : ~Has(v[q], "err")]>>
 Update(d, e) == [v \in DOMAIN d \cup DOMAIN e |-> IF v \in DOMAIN e THEN e[v] ELSE d[v]]
-M0 == [d |-> EmptyEnv, t |-> EmptyEnv, sl |-> EmptyEnv, nid |-> 0]
+M0 == [d |-> EmptyEnv]
 R(v, m) == [v |-> v, m |-> m]
 
-RECURSIVE EvalI(_, _), EvalSeqI(_, _), CallI(_, _, _), BindSlotsI(_, _, _, _, _), FillSlotsI(_, _, _, _),
-          ForI(_, _, _, _), ApplyNamedI(_, _, _)
+RECURSIVE EvalI(_, _), EvalSeqI(_, _), EvalMaskI(_, _), CallI(_, _, _), BindSlotsI(_, _, _, _, _),
+          FillSlotsI(_, _, _, _), ForI(_, _, _, _), ApplyNamedI(_, _, _)
 
 (* arguments left to right, threading the machine *)
 EvalSeqI(es, m) ==
@@ -225,14 +238,23 @@ EvalSeqI(es, m) ==
   ELSE LET h == EvalI(Head(es), m)
            r == EvalSeqI(Tail(es), h.m) IN [vs |-> <<h.v>> \o r.vs, m |-> r.m]
 
+(* dynamic partial application: the fixed arguments are evaluated NOW *)
+EvalMaskI(es, m) ==
+  IF es = <<>> THEN [slots |-> <<>>, m |-> m]
+  ELSE IF Head(es).k = "hole"
+       THEN LET r == EvalMaskI(Tail(es), m) IN [slots |-> <<HoleM>> \o r.slots, m |-> r.m]
+       ELSE LET h == EvalI(Head(es), m)
+                r == EvalMaskI(Tail(es), h.m) IN [slots |-> <<[val |-> h.v]>> \o r.slots, m |-> r.m]
+SlotPoison(slots) == \E j \in 1..Len(slots) : Has(slots[j], "val") /\ IsPoison(slots[j].val)
+(* static partial application: the argument tokens stay as they are *)
 SlotsOf(args) == [j \in 1..Len(args) |-> IF args[j].k = "hole" THEN HoleM ELSE [tok |-> args[j]]]
 
 (* builtins used by the Closures programs only (no higher-order builtin there) *)
 ApplyNamedI(name, vs, m) ==
   IF AnyPoison(vs) THEN R(PoisonOf(FirstPoison(vs)), m) ELSE R(ApplyNamed(name, vs), m)
 
-(* inline partial function: for (param, token) in zip(varnames, shared items):
-   a bare '?' takes the next call argument, any other token is evaluated NOW in the caller's dict *)
+(* inline partial function: for (param, token) in zip(varnames, items):
+   a bare '?' takes the next call argument, any other token is a value *)
 BindSlotsI(params, slots, args, q, m) ==
   IF params = <<>> \/ slots = <<>> THEN m
   ELSE LET s == Head(slots) IN
@@ -244,8 +266,8 @@ BindSlotsI(params, slots, args, q, m) ==
             BindSlotsI(Tail(params), Tail(slots), args, q,
                        [r.m EXCEPT !.d = Ext(r.m.d, Head(params), r.v)])
 
-(* partial function of a builtin: '?' tokens get the call arguments in order (zip truncates),
-   the other shared tokens are evaluated at call time *)
+(* partial function of a builtin: '?' tokens get the call arguments in order,
+   [val] entries are values, [tok] entries (static form) are evaluated at CALL time *)
 FillSlotsI(slots, args, q, m) ==
   IF slots = <<>> THEN [vs |-> <<>>, m |-> m]
   ELSE LET s == Head(slots) IN
@@ -259,25 +281,22 @@ FillSlotsI(slots, args, q, m) ==
 CallI(f, args, m) ==
   IF AnyPoison(args) THEN R(PoisonOf(FirstPoison(args)), m)
   ELSE CASE f.fn = "tok" ->
-         \* context = copy(context); context.variables = context.variables.copy()  (since /repo a3d4dd5: the
-         \* callee works on its OWN copy of the caller's dict); D.update(token.variables); D[param] = arg
-         LET d1 == IF f.site \in DOMAIN m.t THEN Update(m.d, m.t[f.site]) ELSE m.d
-             d2 == Bind(d1, f.params, args)
+         \* context = copy(context); context.variables = context.variables.copy();
+         \* D.update(item.variables); D[param] = arg; the caller's dict is untouched
+         LET d2 == Bind(Update(m.d, f.vars), f.params, args)
              r == EvalI(f.body, [m EXCEPT !.d = d2]) IN
          R(r.v, [r.m EXCEPT !.d = m.d])
     [] f.fn = "ptok" ->
          LET m1 == [m EXCEPT !.d = Update(m.d, f.vars)]
-             m2 == BindSlotsI(f.params, m.sl[f.site], args, 1, m1) IN
+             m2 == BindSlotsI(f.params, f.slots, args, 1, m1) IN
          IF "_escaped" \in DOMAIN m2.d THEN R(m2.d["_escaped"], [m2 EXCEPT !.d = m.d])
          ELSE LET r == EvalI(f.body, m2) IN R(r.v, [r.m EXCEPT !.d = m.d])
-    [] f.fn = "inst" ->
-         \* self.clear(); self._items.append(ValueToken(arg)) ... : the shared list is overwritten
-         ApplyNamedI(f.name, args, [m EXCEPT !.sl = Ext(m.sl, f.own, [j \in 1..Len(args) |-> [val |-> args[j]]])])
+    [] f.fn = "inst" -> ApplyNamedI(f.name, args, m)
     [] f.fn \in {"pinst", "pstat"} ->
-         LET r == FillSlotsI(m.sl[f.own], args, 1, m) IN ApplyNamedI(f.name, r.vs, r.m)
+         LET r == FillSlotsI(f.slots, args, 1, m) IN ApplyNamedI(f.name, r.vs, r.m)
 
 (* for $v in s return r: the loop variable is written into ONE copied dict for all iterations;
-   the outer dict is untouched, token state and slots persist *)
+   the outer dict is untouched *)
 ForI(e, items, acc, m) ==
   IF items = <<>> THEN R(acc, m)
   ELSE LET r == EvalI(e.r, [m EXCEPT !.d = Ext(m.d, e.v, <<Head(items)>>)]) IN
@@ -299,31 +318,26 @@ EvalI(e, m) ==
     [] e.k = "if" -> LET c == EvalI(e.c, m) IN
                      IF IsPoison(c.v) THEN R(PoisonOf(c.v), c.m)
                      ELSE IF EBV(c.v) THEN EvalI(e.a, c.m) ELSE EvalI(e.b, c.m)
-    [] e.k = "fun" ->      \* self.variables = context.variables.copy(); return self
-         R(<<[fn |-> "tok", site |-> e.site, params |-> e.params, body |-> e.body]>>,
-           [m EXCEPT !.t = Ext(m.t, e.site, m.d)])
+    [] e.k = "fun" ->      \* func = copy(self); func.variables = context.variables.copy(); return func
+         R(<<[fn |-> "tok", site |-> e.site, params |-> e.params, body |-> e.body, vars |-> m.d]>>, m)
     [] e.k = "ref" ->      \* func = token_class(parser, nargs=arity): a fresh instance per evaluation
-         LET own == "#" \o ToString(m.nid + 1) IN
-         R(<<[fn |-> "inst", name |-> e.name, arity |-> e.arity, own |-> own]>>,
-           [m EXCEPT !.nid = m.nid + 1, !.sl = Ext(m.sl, own, <<>>)])
+         R(<<[fn |-> "inst", name |-> e.name, arity |-> e.arity]>>, m)
     [] e.k = "call" ->
          LET fr == EvalI(e.f, m) IN
          IF IsPoison(fr.v) THEN R(PoisonOf(fr.v), fr.m)
          ELSE LET f == fr.v[1] IN
            IF HasHole(e.args)
-           THEN \* func = copy(func); func[:] = tokens; func.to_partial_function()
-                LET own == IF f.fn \in {"tok", "ptok"} THEN f.site ELSE f.own
-                    m1 == [fr.m EXCEPT !.sl = Ext(fr.m.sl, own, SlotsOf(e.args))] IN
-                IF f.fn \in {"tok", "ptok"}
+           THEN \* func = copy(func); func._items = [? | ValueToken(tk.evaluate(context))]; to_partial_function()
+                LET a == EvalMaskI(e.args, fr.m) IN
+                IF SlotPoison(a.slots) THEN R(Poison("XPST0008"), a.m)
+                ELSE IF f.fn \in {"tok", "ptok"}
                 THEN R(<<[fn |-> "ptok", site |-> f.site, params |-> f.params, body |-> f.body,
-                          vars |-> IF f.fn = "ptok" THEN f.vars
-                                   ELSE IF f.site \in DOMAIN fr.m.t THEN fr.m.t[f.site] ELSE EmptyEnv]>>, m1)
-                ELSE R(<<[fn |-> "pinst", name |-> f.name, own |-> own]>>, m1)
+                          vars |-> f.vars, slots |-> a.slots]>>, a.m)
+                ELSE R(<<[fn |-> "pinst", name |-> f.name, slots |-> a.slots]>>, a.m)
            ELSE LET a == EvalSeqI(e.args, fr.m) IN CallI(f, a.vs, a.m)
     [] e.k = "scall" ->
          IF HasHole(e.args)
-         THEN R(<<[fn |-> "pstat", name |-> e.name, own |-> e.site]>>,
-                [m EXCEPT !.sl = Ext(m.sl, e.site, SlotsOf(e.args))])
+         THEN R(<<[fn |-> "pstat", name |-> e.name, slots |-> SlotsOf(e.args)]>>, m)
          ELSE LET a == EvalSeqI(e.args, m) IN ApplyNamedI(e.name, a.vs, a.m)
     [] e.k = "for" ->      \* context.variables = context.variables.copy()
          \* everything below (the sequence operand, the body, calls made by them) works on the COPY
